@@ -532,7 +532,7 @@ def run(ctx, ck):
 
     def form_ob(func, key, want_texts, select, text):
         """the paths chosen by select(conds) return exactly the set of documented forms"""
-        forms = [(p_, pol) for p_, pol in path_forms(func) if select(p_.conds)]
+        forms = [(p_, pol) for p_, pol in path_forms(func) if select(p_)]
         want = [roles_of_text(t_) for t_ in want_texts]
         got = [pol for p_, pol in forms]
         ok = bool(got) and all(not isinstance(g_, str) for g_ in got) and \
@@ -556,18 +556,23 @@ def run(ctx, ck):
     HALF = 'norm(dvecs(i - 0.5)[0] - dvecs(i - 0.5)[1])'
     PER_LEN = 'sqrt(%s) / (2 * pi * r_orig * conductivity)' % K2
     BESSEL = 'jv(0, sqrt(%s) * r_orig) / jv(1, sqrt(%s) * r_orig)' % (K2, K2)
-    miss = lambda cs: cond_has(cs, 'zint is None', True)
-    hit = lambda cs: any(t_ == 'loop' for t_, b_ in cs) and cond_has(cs, 'zint is None', False)
+    # (a miss is a path that stores the cache entry, a hit a path through the loop that does not - however the
+    # test is written: `is None` / `is not None`, computed under the test or after an early return)
+    def stores(p_, attr):
+        return any(ev[0] == 'store' and (ev[1].endswith('.' + attr) or ('.%s[' % attr) in ev[1]) for ev in p_.events)
+    miss = lambda p_: stores(p_, 'zint')
+    hit = lambda p_: any(t_ == 'loop' for t_, b_ in p_.conds) and not stores(p_, 'zint') and \
+        any('zint' in t_ for t_, b_ in p_.conds if isinstance(t_, str))
     n1 = form_ob(se_i, se_i.qual + '|zint', ['%s * %s * (%s)' % (HALF, PER_LEN, BESSEL), '%s * %s * 1j' % (HALF, PER_LEN)],
                  miss, 'contribution = |half segment| * k / (2 pi a sigma) * J0(ka)/J1(ka) (or its limit 1j), '
                  'k = sqrt(-j omega mu0 sigma)')
     n2 = form_ob(se_i, se_i.qual + '|length-of-half', ['%s * zint[1]' % HALF], hit,
                  'cached value is multiplied by the length of the half segment on object i')
-    form_ob(se_i, se_i.qual + '|no-objects', ['0'], lambda cs: any(t_ == 'loop-skipped' for t_, b_ in cs),
+    form_ob(se_i, se_i.qual + '|no-objects', ['0'], lambda p_: any(t_ == 'loop-skipped' for t_, b_ in p_.conds),
             'nothing is added for a pulse without skin-effect objects')
     ck.floor('skin-effect paths (cache miss / hit)', min(n1, 2) + min(n2, 1), 3)
     # the Bessel ratio is used below the overflow threshold, the asymptote above
-    thr = [(t_, b_, pol) for p_, pol in path_forms(se_i) if miss(p_.conds) for t_, b_ in p_.conds
+    thr = [(t_, b_, pol) for p_, pol in path_forms(se_i) if miss(p_) for t_, b_ in p_.conds
            if isinstance(b_, bool) and t_.startswith('abs(')]
     ok = len(thr) == 2 and all(('jv(' in repr(pol)) == (b_ if '<' in t_ else not b_) for t_, b_, pol in thr)
     ck.ob('R-FORM.distributed', se_i.qual + '|bessel-ratio', ok, se_i.loc(),
@@ -575,8 +580,8 @@ def run(ctx, ck):
     in_i = m.func('mininec.Insulation_Load.impedance')
     ZINS = 'mu_0 * (epsilon_r - 1) / epsilon_r * log(radius / r_orig) / (2 * pi)'
     OMG = '(2 * pi * (f * 1e6))'
-    imiss = lambda cs: cond_has(cs, 'zins is None', True)
-    ihit = lambda cs: cond_has(cs, 'zins is None', False)
+    imiss = lambda p_: stores(p_, 'zins')
+    ihit = lambda p_: not stores(p_, 'zins') and any('zins' in t_ for t_, b_ in p_.conds if isinstance(t_, str))
     n1 = form_ob(in_i, in_i.qual + '|zins', ['%s * %s * 1j * (seg_len / 2)' % (ZINS, OMG)], imiss,
                  'contribution = j omega * mu0 (eps_r - 1)/eps_r * ln(b/a) / (2 pi) * half segment length')
     n2 = form_ob(in_i, in_i.qual + '|contribution', ['zins * %s * 1j * (seg_len / 2)' % OMG], ihit,
